@@ -303,7 +303,8 @@ class SourceWorld(BaseWorld):
         if self.prop == 'C04':
             files = gen_layout(rng, len(self.decls))
             form = rng.choice(['name', 'dot', 'rel', 'abs'])
-            how = weighted(rng, [(6, 'compiler'), (2, 'from_mal_spec'), (2, 'reuse')])
+            how = weighted(rng, [(6, 'compiler'), (2, 'from_mal_spec'), (2, 'reuse'),
+                                 (2, 'reuse_after_error')])
             return {'op': 'compile_layout', 'files': files, 'path_form': form, 'how': how}
         # C17
         nfiles = len(self.files)
@@ -355,7 +356,23 @@ class SourceWorld(BaseWorld):
                 # the language graph keeps only the first of two associations with one
                 # name between the same types (not the compiler's business, and not C04's)
                 how = 'compiler'
-            if how == 'reuse':
+            if how == 'reuse_after_error':
+                # the same compiler object first fails inside an *included* file of another
+                # root in the same directory, then compiles this layout
+                with open(os.path.join(d, 'zz_bad_root.mal'), 'w') as f:
+                    f.write('include "zz_bad_inc.mal"\n')
+                with open(os.path.join(d, 'zz_bad_inc.mal'), 'w') as f:
+                    f.write('#id: "x"\ninclude "zz_no_such_file.mal"\n')
+                c = self.comp.MalCompiler()
+                bad = os.path.join(os.path.dirname(root), 'zz_bad_root.mal') if os.path.dirname(root) \
+                    else 'zz_bad_root.mal'
+                first = self._compile(bad, compiler=c)
+                if not first.raised:
+                    raise Violation('C04.layout_invariant', 'a root whose include chain ends in a '
+                                                            'missing file compiled without an error')
+                o = self._compile(root, compiler=c)
+                self.count('probe:compiler_instance_reused_after_error')
+            elif how == 'reuse':
                 # one compiler instance, two roots in the same directory
                 c = self.comp.MalCompiler()
                 first = self._compile(root, compiler=c)
